@@ -34,12 +34,12 @@ func (ctl *HTTPGroupController) Register(
 ) (err error) {
 	indexKey := group
 	ctl.mu.Lock()
+	defer ctl.mu.Unlock()
 	g, ok := ctl.groups[indexKey]
 	if !ok {
 		g = NewHTTPGroup(ctl)
 		ctl.groups[indexKey] = g
 	}
-	ctl.mu.Unlock()
 	verifhook.At("group.lookedup", "kind", "http", "group", group, "obj", verifhook.ID(g), "created", !ok, "member", proxyName, "key", groupKey, "param", routeConfig.Domain+"|"+routeConfig.Location+"|"+routeConfig.RouteByHTTPUser)
 
 	return g.Register(proxyName, group, groupKey, routeConfig)
